@@ -97,10 +97,10 @@ where
 {
     writeln!(writer, "#[derive(Debug, Default, YaSerialize, YaDeserialize)]")?;
     if let Some(tns) = &target_namespace {
-        let namespaces = format!("\"{}\" = \"{}\"", tns.abbreviation, tns.namespace);
+        let namespaces = format!("{:?} = {:?}", tns.abbreviation, tns.namespace);
         writeln!(
             writer,
-            "#[yaserde(prefix = \"{}\", namespaces = {{{}}}, rename = \"{}\")]",
+            "#[yaserde(prefix = {:?}, namespaces = {{{}}}, rename = {:?})]",
             tns.abbreviation, namespaces, xml_name
         )?;
     }
@@ -162,12 +162,12 @@ where
         }
         let namespaces = xmlns
             .iter()
-            .map(|(k, v)| format!("\"{k}\" = \"{v}\""))
+            .map(|(k, v)| format!("{k:?} = {v:?}"))
             .collect::<Vec<String>>()
             .join(", ");
         writeln!(
             writer,
-            "#[yaserde(prefix = \"{}\", namespaces = {{{}}}, rename = \"{}\")]",
+            "#[yaserde(prefix = {:?}, namespaces = {{{}}}, rename = {:?})]",
             tns.abbreviation, namespaces, xml_name
         )?;
     }
